@@ -263,6 +263,11 @@ pub fn lex(lang: LangId, src: &str) -> Lexed {
         }
         if c == b'`' {
             let s = i;
+            // an escaped identifier is a whole token: a backtick glued to the end of a word (`OP`Type``) is no identifier
+            if !matches!(lang, LangId::Go | LangId::Ts) && s > 0 && (b[s - 1].is_ascii_alphanumeric() || b[s - 1] == b'_') {
+                out.error = Some(format!("backtick inside an identifier at byte {s}"));
+                return out;
+            }
             i += 1;
             let mut closed = false;
             let st = i;
